@@ -9,7 +9,7 @@ SH = shapes()
 
 # ---------------------------------------------------------------------------------------------------- block store
 
-@NW.contract("skepticoin.blockstore.BlockStore.add_block_to_buffer", props=["C09", "C12"])
+@NW.contract("skepticoin.blockstore.BlockStore.add_block_to_buffer", props=["C09", "C12", "C08"])
 def _(c):
     c.params(self=SH['store'])
     c.ensures("same(self.write_buffer, old(self.write_buffer) + [block])")
@@ -17,7 +17,7 @@ def _(c):
     c.no_raise()
 
 
-@NW.contract("skepticoin.blockstore.BlockStore.write_blocks_to_disk", props=["C09", "C12"])
+@NW.contract("skepticoin.blockstore.BlockStore.write_blocks_to_disk", props=["C09", "C12", "C08"])
 def _(c):
     c.params(self=SH['store'], blocks=LIST(CLS('Block')))
     c.ensures("same(self.disk, old(self.disk) + blocks)")
@@ -27,7 +27,7 @@ def _(c):
             "the write/read round trip is the bounded check of C08")
 
 
-@NW.contract("skepticoin.blockstore.BlockStore.flush_blocks_to_disk", props=["C09", "C12"])
+@NW.contract("skepticoin.blockstore.BlockStore.flush_blocks_to_disk", props=["C09", "C12", "C08"])
 def _(c):
     c.params(self=SH['store'])
     c.ensures("same(self.disk, old(self.disk) + old(self.write_buffer))", "len(self.write_buffer) == 0")
